@@ -213,19 +213,28 @@ PROPS["C08"] = dict(
 
 PROPS["C10"] = dict(
     title="Directives change exactly what they select",
-    modules=["Kust.Props.C10"],
+    modules=["Kust.Props.C10", "Kust.Props.C10b"],
     theorems=["Kust.C10.image_match_exact", "Kust.C10.rest_starts_tag_or_digest", "Kust.C10.match_has_prefix", "Kust.C10.unmatched_untouched",
-              "Kust.C10.stripPrefix_iff", "Kust.C10.Witness.old_regex_name_matched_other_image"],
+              "Kust.C10.stripPrefix_iff", "Kust.C10.Witness.old_regex_name_matched_other_image",
+              "Kust.C10.unselected_untouched", "Kust.C10.unnamed_field_untouched", "Kust.C10.target_frame", "Kust.C10.target_writes",
+              "Kust.C10.literal_copied_verbatim", "Kust.C10.source_unique_and_current", "Kust.C10.last_sees_predecessors",
+              "Kust.C10.target_pieces_exact", "Kust.C10.source_piece", "Kust.C10.setPieces_replace"],
     components=["image.update", "image.split", "repl.apply"],
     oracle=True,
     n_corr={"quick": 4000, "thorough": 40000}, n_oracle={"quick": 1200, "thorough": 15000},
-    technique="Lean 4 proof (image reference matching is literal-prefix + tag/digest grammar: exact characterisation, never a longer or shorter name) + Go/Lean correspondence of the imagetag filter and Split + near-miss selection oracle for patch targets, images, replicas and replacements on whole builds",
+    technique="Lean 4 proof (image reference matching is literal-prefix + tag/digest grammar: exact characterisation, never a longer or shorter name; replacement filter on scalar fields: frame, verbatim copy, unique current source, strict sequencing, delimiter/index piece laws) + Go/Lean correspondence of the imagetag filter, Split and the replacement filter (lists of chained replacements) + near-miss selection oracle for patch targets, images, replicas and replacements on whole builds",
     level_text="Theorems (all strings): an images entry matches a reference iff it is the entry's name followed by an optional :tag and @sha256:digest; the character after "
-               "the name is ':' or '@' (never a longer name), the name is a literal prefix (never shorter), unmatched images are untouched. Patch-target selectors "
+               "the name is ':' or '@' (never a longer name), the name is a literal prefix (never shorter), unmatched images are untouched. Replacement filter "
+               "(model Kust.Repl of replacement.go on name/label/data scalars, tied by repl.apply): resources no target selects and fields no target names are "
+               "untouched across a whole list; selected fields receive the value verbatim; a field source is unique and read from the CURRENT state, each "
+               "replacement sees its predecessors' writes; delimiter/index replace exactly the addressed piece. Patch-target selectors "
                "(Go regexp, third-party), replicas and replacement targets are decided by the oracle with an independent matcher over near-miss families; the "
                "unanchored [k=v] selector of replacement targets is the recorded finding C10-K1.",
     level_note=COMMON_NOTE + "Go regexp (user-supplied selector patterns) is not modelled: anchoring is checked by the oracle only.",
-    assumptions=["fixed-shape image regexp hand-modelled as a string function (validated by correspondence)"],
+    assumptions=["fixed-shape image regexp hand-modelled as a string function (validated by correspondence)",
+                 "replacement model covers scalar fields metadata.name / metadata.labels.k / data.k, kind+name+label selectors and reject lists; "
+                 "list-element paths, non-scalar values, annotation selectors and group/version/namespace selectors are outside the model (oracle only)",
+                 "target_pieces_exact is proved for one-character delimiters (the model and the correspondence run any delimiter)"],
     design_ref="DESIGN.md §5 C10",
 )
 
